@@ -491,17 +491,10 @@ Section Sim.
     - cbn. split; [exact Hw|split; [exact I|reflexivity]].
   Qed.
 
-  (* what an application observes of a history: per operation, the outcome and the writes *)
-  Fixpoint trace (w : world) (ops : list op) : list (outcome * list wevent) :=
-    match ops with
-    | [] => []
-    | o :: r => let x := step_op bat vlt now w o in (snd (fst x), snd x) :: trace (fst (fst x)) r
-    end.
-
   (* WHOLE HISTORIES *)
   Theorem sim_history ops : forall w w',
     Forall op_agree ops -> Rw w w' ->
-    Forall2 (fun x x' => outcome_rel (fst x) (fst x') /\ snd x = snd x') (trace w ops) (trace w' ops)
+    Forall2 (fun x x' => outcome_rel (fst x) (fst x') /\ snd x = snd x') (trace bat vlt now w ops) (trace bat vlt now w' ops)
     /\ Rw (run_ops bat vlt now w ops) (run_ops bat vlt now w' ops).
   Proof.
     induction ops as [|o r IH]; intros w w' Ha Hw; cbn [trace].
